@@ -199,6 +199,16 @@ def TN.D (tn : TN α) (r : Option Int) (idx : List Nat) : α :=
     | some d => d.get idx
     | none => 0
 
+/-- `TensorNetwork.is_consistent`: symbolic consistency, every data reference present with the tensor's shape -/
+def isConsistentData (tn : TN α) : Except TNet.Err Bool := do
+  if !(← isConsistent tn.net) then return false
+  return tn.net.tensors.all (fun e => e.2.tid == -1 ||
+    match e.2.dataref with
+    | none => false
+    | some r => match tn.data.lookup r with
+      | none => false
+      | some d => d.shape == e.2.shape)
+
 /-- symbolic part of `TensorNetwork.wrap(a, dataref)` for an array of the given shape -/
 def wrapNet (shape : List Nat) : Net :=
   { tensors := [(0, ⟨0, shape, irange shape.length, some 0⟩), (-1, ⟨-1, shape, irange shape.length, none⟩)],
